@@ -119,7 +119,19 @@ func c02Mutate(r *Rng, src, other []byte, maxSize int) ([]byte, string) {
 		out = cp(src)
 	case 1:
 		kind = "truncate"
-		out = cp(src[:pos(src)])
+		cut := pos(src)
+		if r.Chance(2, 3) && len(src) > 0 {
+			// cut right after a byte that is likely to be inside or at the end of a literal /
+			// operator: digits, '.', exponent letters, quotes, backslash, '(', '#', operators
+			for tries := 0; tries < 40; tries++ {
+				j := r.Intn(len(src))
+				if strings.IndexByte("0123456789.eExXbo_\"'\\(#<>=!~&|*+-/:?[{,KMGTPi", src[j]) >= 0 {
+					cut = j + 1
+					break
+				}
+			}
+		}
+		out = cp(src[:cut])
 	case 2:
 		kind = "splice"
 		out = append(cp(src[:pos(src)]), other[pos(other):]...)
